@@ -496,6 +496,23 @@ theorem rangeOK_congr {o1 o2 : Opts} (h : o1.range = o2.range) (k : Option Kind)
 theorem optionsOK_congr {o1 o2 : Opts} (h : o1.options = o2.options) (k : Option Kind) (j : J) :
     optionsOK o1 k j = optionsOK o2 k j := by unfold optionsOK; rw [h]
 
+theorem resolve_inherit {c : Cfg} {po : Option Opts} {key : Str} {m : Obj} {om : Option Opts}
+    (hc : c.pinned = false) (h : resolveOpts c po key m = .ok om) : optInherit om = optInherit po := by
+  unfold resolveOpts at h
+  cases po with
+  | none => simp at h; subst h; rfl
+  | some o =>
+    simp only at h
+    obtain ⟨o', ho', rfl⟩ := exceptMap_ok h
+    unfold toOptionsWithContext at ho'
+    cases he : effOptional o key m with
+    | error e => simp [he] at ho'
+    | ok b =>
+      simp only [he] at ho'
+      split at ho'
+      · simp at ho'; subst ho'; rfl
+      · simp at ho'; subst ho'; simp [optInherit, hc]
+
 theorem fieldCore_sound {c : Cfg} {name : Str} {tag : Option Str} {isSlice : Bool} {k : Option Kind} {m : Obj}
     {wv : Option Opts → J → Except Err Val} {ar : Unit → Except Err Val} {dv : Str → Except Err Val} {z v : Val}
     {conv : J → Val → Bool} {absent : Val → Bool} {dflt : Str → Val → Bool} {isZ : Val → Bool}
@@ -529,11 +546,9 @@ theorem fieldCore_sound {c : Cfg} {name : Str} {tag : Option Str} {isSlice : Boo
         by_cases hk : key = "-".toList
         · rw [if_pos hk] at h ⊢; simp at h; subst h; exact hz
         · rw [if_neg hk] at h ⊢
-          split at h
-          · simp at h
           · change (depOK (effOpts po) key m && _) = true
-            rw [hdep, Bool.true_and]
-            cases hl : lookupKey c key m with
+            rw [hdep, Bool.true_and, ← resolve_inherit hc hr]
+            cases hl : lookupKey c (optInherit om) key m with
             | error e => simp [hl] at h
             | ok lk =>
             cases lk with
@@ -679,7 +694,7 @@ theorem sliceResult_sound {p : J → Val → Bool} {l : List J} {vs : VList} (h 
     · simp [h1, h2, h]
 
 theorem Cfg.top_pinned {c : Cfg} (h : c.pinned = false) : c.top.pinned = false := h
-theorem Cfg.nest_pinned {c : Cfg} (h : c.pinned = false) : c.nest.pinned = false := h
+theorem Cfg.nest_pinned {c : Cfg} {m : Obj} (h : c.pinned = false) : (c.nestIn m).pinned = false := h
 
 /-- the slice case shared by `withValue`, `elemValue` and `mapElemValue` -/
 theorem slice_sound {c : Cfg} {t : Ty} {l : List J} {v : Val} {ev : J → Except Err Val}
@@ -906,7 +921,7 @@ theorem unmFields_sound (c : Cfg) (hc : c.pinned = false) :
   | .nil, m, vs, h => by simp [unmFields] at h; subst h; simp [satFields]
   | .cons name tag t rest, m, vs, h => by
     unfold unmFields at h
-    cases hf : fieldCore c name tag t.isSlice m (fun o j => withValue c.nest o t j) (fun _ => absentRequired c t)
+    cases hf : fieldCore c name tag t.isSlice m (fun o j => withValue (c.nestIn m) o t j) (fun _ => absentRequired c t)
         (defaultVal c t) (zero t) with
     | error e => simp [hf] at h
     | ok v =>
@@ -914,9 +929,9 @@ theorem unmFields_sound (c : Cfg) (hc : c.pinned = false) :
       | error e => simp [hf, hrest] at h
       | ok vs' =>
         simp [hf, hrest] at h; subst h
-        have h1 := fieldCore_sound (k := derefKind t) (conv := fun j v => satTy c.nest t j v)
+        have h1 := fieldCore_sound (k := derefKind t) (conv := fun j v => satTy (c.nestIn m) t j v)
           (absent := fun v => satAbsent c t v) (dflt := fun d v => satDefault t d v) (isZ := fun v => isZero t v) hc
-          (fun o j v hv => withValue_sound c.nest (Cfg.nest_pinned hc) t o j v hv)
+          (fun o j v hv => withValue_sound (c.nestIn m) (Cfg.nest_pinned hc) t o j v hv)
           (fun v hv => absentRequired_sound c hc t v hv)
           (fun d v hv => defaultVal_sound c hc t d v hv)
           (isZero_zero t) hf
